@@ -537,3 +537,9 @@ def r05_11(ctx):
     computed = any(isinstance(st, ast.Assign) and ast.unparse(st.targets[0]) == "self.B" and "solve" in ast.unparse(st.value) for st in walk_no_nested(f.node))
     ctx.check(uses_B and (checked or computed), "DirectCollocation quadrature weights sum to one", detail="weights taken from collocation_coeff unchecked: for degree=1, scheme='radau' they are [0.5] and every integral / quadrature state is halved",
               expected="if the weights do not sum to 1: recompute them on the collocation points (moment conditions) or raise", found="no check of sum(self.B)", fi=f)
+
+
+@rule("R05.12", min_instances=10, desc="the running cost is integrated along with the state: the M sub-steps of an interval are chained state to state and start at t0 + j*DT, the quadrature increments are summed once each (shared with C01: R01.1)")
+def r05_12(ctx):
+    from .c01 import r01_1
+    r01_1(ctx)
